@@ -33,6 +33,9 @@ class Scenario:
         self.desc = desc or {}
 
 
+_ECHO_TURN = [0]
+
+
 def scenario_from_env(plat, needchg, e, rng):
     """Concretise an abstract Env record from GenBringup. Dimensions the behaviour never looked at
     ("?" / sentinels) are filled with seeded random members of their domain."""
@@ -52,6 +55,11 @@ def scenario_from_env(plat, needchg, e, rng):
     d.ui_version = ver(e["uiver"])
     d.app_version = ver(e["appver"])
     d.echo_ok = pick(e["echo"], ["t", "f"]) == "t"
+    if not d.echo_ok:
+        # every shape of a wrong echo in turn (not one random member): header-only, payload-only, length ...
+        from .simdev import ECHO_SHAPES
+        _ECHO_TURN[0] += 1
+        d.echo_shape = ECHO_SHAPES[_ECHO_TURN[0] % len(ECHO_SHAPES)]
     r = e["retries"]
     retries_err = None
     if r == 998:
